@@ -54,8 +54,13 @@ def gen_c10(rng, tier, n):
             x = rng.random()
             if x < 0.45:
                 lines.append("append %d" % rec); rec += 1; napp[cur] = napp.get(cur, 0) + 1
-            elif x < 0.82:
+            elif x < 0.76:
                 lines.append("read %s %d" % (from_tok(rng, 3, napp.get(cur, 0)), rng.choice(LIMITS)))
+            elif x < 0.82:
+                # streaming reads must return the same sequence: Replay without faults streams (or pages) from the cursor
+                frm = from_tok(rng, 3, napp.get(cur, 0))
+                if not frm.startswith("="):
+                    lines.append("replay %s %d %d - - -" % (frm, rng.choice([0, 2, 100]), rng.randint(0, 1)))
             elif x < 0.89:
                 lines.append("save %s %s" % (rng.choice(["s1", "s2", "ünï"]), from_tok(rng, 2, napp.get(cur, 0))))
             elif x < 0.95:
@@ -157,7 +162,7 @@ def nontrivial(prop, lines, impl):
 
 def property_fails(prop, lines, impl, model):
     impl, model = normalize(lines, impl, model)
-    keep = ("append", "read", "save", "load", "use") if prop == "C10" else ("replay",)
+    keep = ("append", "read", "save", "load", "use", "replay") if prop == "C10" else ("replay",)
     a = [l for l in (impl or ["<none>"]) if l.startswith("!") or l.split(" ", 1)[0] in keep]
     b = [l for l in (model or ["<none>"]) if l.startswith("!") or l.split(" ", 1)[0] in keep]
     if a == b:
